@@ -503,6 +503,12 @@ func HarnessC18Widthratio() {
 
 // ---- formatting filters on concrete inputs (float/time formatting is not encoded: enumeration, not decided by the solver) ----
 func HarnessC18Concrete() {
+	// widthratio with a zero maximum: the documented value is 0 (Django catches the division by zero)
+	for _, src := range []string{"{% widthratio 5 0 100 %}", "{% widthratio 0 0 100 %}", "{% widthratio cur zero 100 %}", "{% widthratio 5 0.0 100 as r %}{{ r }}"} {
+		out, ok := render(src, Context{"cur": -3, "zero": 0})
+		verifObserve("widthratio", out)
+		verifAssert(ok && out == "0", "widthratio with a zero maximum must give 0")
+	}
 	type tc struct {
 		f    string
 		in   any
